@@ -1,6 +1,6 @@
 /- the per-key labelled transition system every store command refines: whatever command runs, each key's entry
-   moves by exactly one of eight labelled steps.  All per-key properties (invariants, snapshot stability, durability
-   of records, never-both) are then proved once, over the eight steps, and hold for every command sequence. -/
+   moves by exactly one of nine labelled steps.  All per-key properties (invariants, snapshot stability, durability
+   of records, never-both) are then proved once, over the nine steps, and hold for every command sequence. -/
 import ClientGoVerif.Proofs.MvccReach
 import ClientGoVerif.Proofs.MvccStable
 import ClientGoVerif.Proofs.MvccGC
@@ -12,7 +12,8 @@ inductive KLabel
   | commit (T C : TS)
   | rollback (T : TS)      -- the transaction's lock is removed and its rollback marker written
   | marker (T : TS)        -- a bare rollback marker (no lock of T on the key)
-  | locks (T : TS)         -- lock writes of transaction T (prewrite, pessimistic lock, ttl / min-commit-ts updates)
+  | locks (T : TS)         -- lock writes of transaction T (prewrite, pessimistic lock request)
+  | touch (T : TS)         -- T's own lock is rewritten with another ttl / min-commit-ts (heartbeat, status check)
   | unlock                 -- a lock is removed and nothing is written
   | gc (sp : TS)
   | wipe                   -- unsafe destroy range
@@ -28,6 +29,8 @@ inductive KStep (e : Entry) : KLabel → Entry → Prop
   | locks (k : Bytes) (T : TS) (acts : List Act) :
       (∀ a ∈ acts, ∃ l, a = Act.putLock k l ∧ l.startTS = T) → Fresh e.writes T →
       KStep e (.locks T) (acts.foldl entryAct e)
+  | touch (k : Bytes) (T : TS) (l l' : Lock) : e.lock = some l → l.startTS = T → l'.startTS = T → l'.op = l.op →
+      KStep e (.touch T) (entryAct e (.putLock k l'))
   | unlock (acts : List Act) : (∀ x ∈ acts, ∃ k', x = Act.delLock k') → KStep e .unlock (acts.foldl entryAct e)
   | gc (k : Bytes) (sp : TS) : KStep e (.gc sp) ((gcWrites k e.writes sp true).foldl entryAct e)
   | wipe : KStep e .wipe {}
@@ -41,6 +44,7 @@ theorem KStep.einv {e e' : Entry} {lab : KLabel} (h : KStep e lab e') (hi : EInv
   | marker k T hnl hf => exact EInv_marker e k T hi hnl hf
   | locks k T acts ha hf => exact EInv_putLocks e k T acts hi (fun a h => by
       obtain ⟨l, h1, h2⟩ := ha a h; exact ⟨l, h1, h2, hf⟩)
+  | touch k T l l' hl hT hT' hop => exact EInv_putLock e k l' hi (by rw [hT', ← hT]; exact hi.lockFresh l hl)
   | unlock acts ha => exact EInv_delLocks_fold acts e hi ha
   | gc k sp => rw [gcWrites_eq]; exact EInv_delWrites e k _ hi
   | wipe => exact EInv.empty
